@@ -525,7 +525,7 @@ def batch(arg):
         if not out["samples"] and len(case["planted"]) >= 3 and not case["fault"]:
             out["samples"].append({"case": i, "text": case["files"]["m.emb"][:900],
                                    "planted": [(l, c, tgt) for l, c, tgt, _t in case["planted"]][:6]})
-    out["viol"] = out["viol"][:40]
+    out["viol"] = common.cap_by_mech(out["viol"])
     return out
 
 
